@@ -1,42 +1,116 @@
 /-
-Model/BatchGcd.lean — mirrors rsa_util.BatchGCD. No Mathlib.
+Model/BatchGcd.lean — mirrors rsa_util.BatchGCD and the per-batch step of
+rsa_aggregate_checks.CheckGCD / CheckGCDN1. No Mathlib.
+
+Variants (DESIGN section 6, defect D1): on the pinned tree `BatchGCD([])` raises `IndexError`
+(from `ExtendedProductTree`'s `t[0]`).  `batchGCDPinnedWith` is the pinned code;
+`batchGCDWith` is the code after `fixes/D1-batchgcd-empty.diff` (`if not values: return []`
+as first statement).  The two agree on every non-empty batch by definition.
 -/
 import ParanoidModel.Model.NTheory
 namespace Paranoid
 
+/-- `r % a` on (gmpy2) ints with `r, a ≥ 0`: `ZeroDivisionError` for `a = 0`. -/
+def pyModNat (r a : Nat) : Except PyErr Nat :=
+  if a = 0 then .error .zeroDivision else .ok (r % a)
+
 /-- one level of the remainder tree:
 `remainders[i] = prev[i//2]` if `i + 1 == len(level) and i % 2 == 0` else `prev[i//2] % level[i]`.
 Written pairwise: the two children at `2j, 2j+1` share `prev[j]`; a trailing single child sits at
-an even index and is passed through. -/
-def remStep : List Nat → List Nat → List Nat
-  | a :: b :: vs, r :: rs => r % a :: r % b :: remStep vs rs
-  | [_], r :: _ => [r]
-  | _, _ => []
+an even index and is passed through. `prev[i//2]` beyond the end of `prev` is an `IndexError`
+(unreachable from `BatchGCD`, theorem `remTree_inv`). -/
+def remStep : List Nat → List Nat → Except PyErr (List Nat)
+  | a :: b :: vs, r :: rs => do
+      let x ← pyModNat r a
+      let y ← pyModNat r b
+      let rest ← remStep vs rs
+      pure (x :: y :: rest)
+  | [_], r :: _ => pure [r]
+  | [], _ => pure []
+  | _ :: _, [] => .error .indexError
 
 /-- walk the tree from the root level down (`prod_tree.pop()` until empty). `levels` is given
 root first. -/
-def remTree : List (List Nat) → List Nat → List Nat
-  | [], prev => prev
-  | level :: rest, prev => remTree rest (remStep level prev)
+def remTree : List (List Nat) → List Nat → Except PyErr (List Nat)
+  | [], prev => pure prev
+  | level :: rest, prev => do
+      let r ← remStep level prev
+      remTree rest r
 
-/-- `dict(zip(unique_values, remainders))[v]`. -/
+/-- `dict(zip(unique_values, remainders))[v]` with `gmpy.gcd(v, r)` as stored value. The keys
+come from a `set`, so they are pairwise distinct and first match = the dict's (last-wins) entry;
+`zip` truncates, a missing key is a `KeyError`. -/
 def lookupGcd (v : Nat) : List (Nat × Nat) → Except PyErr Nat
   | [] => .error .keyError
   | (u, r) :: rest => if u = v then .ok (Nat.gcd u r) else lookupGcd v rest
 
-/-- `BatchGCD(values, other_values_prod)`; `u` is the enumeration order of `set(values)`
-(unspecified in Python — theorem `batchGCD_spec` shows the result does not depend on it).
-`other = none` or `some 0` both skip the multiplication (Python truthiness). -/
-def batchGCDWith (u values : List Nat) (other : Option Nat) : Except PyErr (List Nat) := do
-  let (tree, t) ← extendedProductTree u
-  let t := match other with
-    | some o => if o ≠ 0 then t * o else t
-    | none => t
-  let rems := remTree tree.reverse [t]
-  values.mapM (fun v => lookupGcd v (u.zip rems))
+/-- `if other_values_prod: t *= other_values_prod` — `None` and `0` both skip the
+multiplication (Python truthiness). -/
+def scaleT (t : Nat) : Option Nat → Nat
+  | some o => if o = 0 then t else t * o
+  | none => t
 
-/-- the executable instance: first-occurrence order. -/
+/-- `[gcds_dict[v] for v in values]`. -/
+def lookupAll (table : List (Nat × Nat)) : List Nat → Except PyErr (List Nat)
+  | [] => pure []
+  | v :: vs => do
+      let g ← lookupGcd v table
+      let gs ← lookupAll table vs
+      pure (g :: gs)
+
+/-- `BatchGCD(values, other_values_prod)` AS PINNED; `u` is the enumeration order of
+`set(values)` (unspecified in Python — theorem `batchGCD_spec` shows the result does not depend
+on it). -/
+def batchGCDPinnedWith (u values : List Nat) (other : Option Nat) : Except PyErr (List Nat) := do
+  let tt ← extendedProductTree u
+  let rems ← remTree tt.1.reverse [scaleT tt.2 other]
+  lookupAll (u.zip rems) values
+
+/-- `BatchGCD` with the D1 repair: `if not values: return []` first. -/
+def batchGCDWith (u values : List Nat) (other : Option Nat) : Except PyErr (List Nat) :=
+  match values with
+  | [] => .ok []
+  | _ :: _ => batchGCDPinnedWith u values other
+
+/-- the executable instances: first-occurrence order as enumeration of `set(values)`. -/
 def batchGCD (values : List Nat) (other : Option Nat) : Except PyErr (List Nat) :=
   batchGCDWith values.eraseDups values other
+
+def batchGCDPinned (values : List Nat) (other : Option Nat) : Except PyErr (List Nat) :=
+  batchGCDPinnedWith values.eraseDups values other
+
+/-! ### per-batch step of `CheckGCD` / `CheckGCDN1`
+Result per key: `(test_result.result, factors handed to util.AttachFactors)`; the Boolean in
+front is `any_weak`. -/
+
+/-- body of the loop of `CheckGCD.Check` for one key: `n` modulus, `g = gcds[i]`. -/
+def checkGCDKey (n g : Nat) : Bool × List Nat :=
+  if g = 1 then (false, []) else (true, [g, n / g])
+
+/-- `CheckGCD.Check` on the moduli `ns` (in artifact order); `bg` is the `BatchGCD` in use
+(repaired or pinned). -/
+def checkGCDV (bg : List Nat → Option Nat → Except PyErr (List Nat)) (ns : List Nat) :
+    Except PyErr (Bool × List (Bool × List Nat)) := do
+  let gcds ← bg ns none
+  let per := List.zipWith checkGCDKey ns gcds
+  pure (per.any (·.1), per)
+
+def checkGCD (ns : List Nat) := checkGCDV batchGCD ns
+def checkGCDPinned (ns : List Nat) := checkGCDV batchGCDPinned ns
+
+/-- body of the loop of `CheckGCDN1.Check` for one key. -/
+def checkGCDN1Key (bound g : Nat) : Bool × List Nat :=
+  if bound ≤ g then (true, [g]) else (false, [])
+
+/-- `CheckGCDN1(gcd_bound).Check` on the moduli `ns`, each `≥ 1` (`n - 1` is a `Nat`; the
+driver refuses `n = 0`, for which Python computes with `-1`). -/
+def checkGCDN1V (bg : List Nat → Option Nat → Except PyErr (List Nat)) (bound : Nat)
+    (ns : List Nat) : Except PyErr (Bool × List (Bool × List Nat)) := do
+  let gcds ← bg (ns.map (· - 1)) none
+  let per := gcds.map (checkGCDN1Key bound)
+  pure (per.any (·.1), per)
+
+def checkGCDN1 (bound : Nat) (ns : List Nat) := checkGCDN1V batchGCD bound ns
+def checkGCDN1Pinned (bound : Nat) (ns : List Nat) := checkGCDN1V batchGCDPinned bound ns
 
 end Paranoid
